@@ -7,7 +7,10 @@ import CifModel.Model.Heap
   end, the number of blocks still live after every slot has been released (0).  The executor reports the same numbers
   from the allocation tracker of harness/alloc.h, so the model's malloc/free protocol is tied to the C call by call.
 
-    valheap <ops as in family val>   ↦   vh <delta> <delta> … # end=<live blocks after releasing every slot>
+    valheap <ops as in family val>   ↦   vh <delta>:<n>:<sum> … # end=<live blocks after releasing every slot>
+  `<n>` = number of live string blocks (texts, digit strings, su digit strings, keys, original spellings) after the
+  operation, `<sum>` = sum mod 2^64 of the FNV-1a hashes of their contents: the executor's dump hook computes the same from the
+  real blocks, so the CONTENTS of the string blocks are compared as a multiset after every operation.
   (an operation that does not resolve — the executor skips it — counts 0.)
 -/
 namespace Driver.Fam.Valheap
@@ -39,6 +42,25 @@ def total (h : Heap) : Nat :=
         | .entry (.tbl (_ :: _)) _ _ => 2
         | .pkt (_ :: _) _ => 2
         | _ => 0)) 0
+
+/-- FNV-1a over the units of a string block (what the executor's dump hook computes over the block's contents) -/
+def fnv (s : Str) : UInt64 :=
+  s.foldl (fun h u => (h ^^^ u.toUInt64) * 1099511628211) 14695981039346656037
+
+/-- summary of the contents of the live string blocks: how many, and the sum (mod 2^64) of their hashes -/
+def strSummary (h : Heap) : Nat × UInt64 :=
+  (List.range h.next).foldl (fun (acc : Nat × UInt64) a =>
+    match h.cell a with
+    | some (.str s) => (acc.1 + 1, acc.2 + fnv s)
+    | _ => acc) (0, 0)
+
+def hex16 (x : UInt64) : String :=
+  let ds := (Nat.toDigits 16 x.toNat)
+  String.mk (List.replicate (16 - ds.length) '0' ++ ds)
+
+def summaryStr (h : Heap) : String :=
+  let (n, s) := strSummary h
+  ":" ++ toString n ++ ":" ++ hex16 s
 
 def getHV (h : Heap) (a : Nat) : Option HVal :=
   match h.cell a with
@@ -156,7 +178,7 @@ partial def apiBuild (h : Heap) (v : V) : Option (Nat × Heap) :=
       for x in vs do
         let hv ← getHV g a
         let (hv', g') ← listInsertH g hv n (some x)
-        g ← putHV g' a hv'
+        g ← (putHV g' a hv').map compact
         n := n + 1
       pure (a, g)
   | .tbl es => do
@@ -165,7 +187,7 @@ partial def apiBuild (h : Heap) (v : V) : Option (Nat × Heap) :=
       for (k, ko, x) in es do
         let ents ← tableEnts g a
         let (ents', g') ← mapSetItemH FUEL g ents k ko (some x)
-        g ← putHV g' a (.tbl ents')
+        g ← (putHV g' a (.tbl ents')).map compact
       pure (a, g)
   | _ => some (buildNew h v)
 
@@ -463,11 +485,11 @@ def run (ops : List (List String)) : String := Id.run do
   let mut out : List String := []
   for op in ops do
     match step st op with
-    | none => out := "0" :: out
+    | none => out := ("0" ++ summaryStr st.h) :: out
     | some st1 =>
       let st' := { st1 with h := compact st1.h }
       let d : Int := (total st'.h : Int) - (total st.h : Int)
-      out := toString d :: out
+      out := (toString d ++ summaryStr st'.h) :: out
       st := st'
   let fin := match releaseAll st with
     | some h => toString (total h)
